@@ -49,7 +49,8 @@ func VerifNewRecConfigurator(isPlus, dynWeights, dynSSL bool) (*Configurator, *n
 	cnf := NewConfigurator(ConfiguratorParams{
 		NginxManager: rm,
 		StaticCfgParams: &StaticConfigParams{NginxStatus: true, NginxStatusAllowCIDRs: []string{"127.0.0.1"}, NginxStatusPort: 8080,
-			TLSPassthrough: true, NginxVersion: rm.Version(), DynamicWeightChangesReload: dynWeights, DynamicSSLReload: dynSSL, StaticSSLPath: rm.GetSecretsDir()},
+			TLSPassthrough: true, NginxVersion: rm.Version(), DynamicWeightChangesReload: dynWeights, DynamicSSLReload: dynSSL, StaticSSLPath: rm.GetSecretsDir(),
+			AppProtectBundlePath: verifBundleDir()},
 		Config:                    NewDefaultConfigParams(ctx, isPlus),
 		MGMTCfgParams:             NewDefaultMGMTConfigParams(ctx),
 		TemplateExecutor:          te,
